@@ -1,6 +1,7 @@
 //! qxv - conformance harness binding the TLA+ specification in /verif/spec to
 //! the real quick-xml code.  Sub-commands are invoked by /verif/check.
 mod attrs;
+mod de_leg;
 #[cfg(feature = "enc")]
 mod enc;
 mod env;
@@ -152,6 +153,19 @@ fn main() {
         }
         "serde-rerun" => {
             let still = serde_leg::rerun(&get("file", ""));
+            println!("{}", if still { "STILL-FAILS" } else { "PASSES-NOW" });
+            std::process::exit(if still { 1 } else { 0 });
+        }
+        "de-replay" => {
+            let s = de_leg::replay(&de_leg::Opts { file: get("file", ""), prop: get("prop", "C07"), out_dir: get("out-dir", "evidence/replay"), mode: get("mode", "soup"), seed, mutate: get("mutate", "0") == "1" });
+            println!("SUMMARY {}", serde_json::to_string(&s).unwrap());
+        }
+        "de-mutate" => {
+            let s = de_leg::mutate_run(&get("file", ""), &get("prop", "C07"), &get("out-dir", "evidence/replay"), seed, get("per-doc", "5").parse().unwrap());
+            println!("SUMMARY {}", serde_json::to_string(&s).unwrap());
+        }
+        "de-rerun" => {
+            let still = de_leg::rerun(&get("file", ""));
             println!("{}", if still { "STILL-FAILS" } else { "PASSES-NOW" });
             std::process::exit(if still { 1 } else { 0 });
         }
